@@ -3,6 +3,8 @@
 R1 dispatch agreement: same opcodes, same handler or its async_ sibling; same pre-dispatch refusals
 R2 handler agreement: filesystem call, arguments, reply sites and refusals of each async handler equal its sync sibling
 R3 reply helper agreement (reply_ok / do_reply_error / handle_attr_result) and Arc<FS> async forwarding
+R4 VFS siblings: each async method of the VFS multiplexer performs the same gating, routing and id/inode translation steps as its sync sibling
+R5 passthrough delegation: each async method of PassthroughFs calls its own sync method with the same arguments
 """
 import json
 import os
@@ -75,10 +77,109 @@ def run(ctx):
         ctx.run_rule("R1-dispatch-agreement", r1_dispatch, A)
         ctx.run_rule("R2-handler-agreement", r2_handlers, A)
         ctx.run_rule("R3-helper-agreement", r3_helpers, A)
+        ctx.run_rule("R4-vfs-siblings", r4_vfs, A)
+        ctx.run_rule("R5-passthrough-delegation", r5_pfs, A)
     finally:
         vf.NOUPD[0] = False
         vf.NOCAST[0] = False
     ctx.assumptions += ["the sync path is the reference (C01-C03)", "executor scheduling effects are not examined"]
+
+
+# ------------------------------------------------------------------ R4: the VFS multiplexer's async methods vs. their sync siblings
+
+VFS_EVENTS = ("validate_path_component", "contains", "from_raw_os_error", "get_real_rootfs", "lookup_pseudo", "remap_attr_id",
+              "convert_backend_entry", "convert_attr", "convert_inode", "remap_ctx_ids")
+
+
+def vfs_events(F, fn, body, v, render_body):
+    """sorted [(event, args...)] of the routing / gating / translation steps of one VFS method (its closures included)."""
+    ev = []
+
+    def txt(x, b, vv):
+        t = norm(vf.render(x, b, short=True, vfx=vv))
+        t = t.replace(".0@Right.0.0.pointer", ".0@Right.0").replace("SLASH_ASCII", "47")
+        t = re.sub(r"\b__self\b", "self", t)          # async_trait renames the receiver inside the coroutine
+        return t
+    bodies = [(body, v, render_body)]
+    for c in F.fns.values():
+        if c.kind == "closure" and c.key.startswith(fn.key + "::") :
+            bodies.append((c, vf.VF(c, inline_depth=0), c))
+    for (b, vv, rb) in bodies:
+        for c in live_calls(b):
+            nm = re.sub(r"^async_", "", c.name)
+            backend = c.trait in (common.FS_TRAIT, common.AFS_TRAIT)
+            if not backend and c.name not in VFS_EVENTS:
+                continue
+            args = [txt(a, rb, {b.key: vv} if b is not rb else vv) for a in vv.call_args(c)]
+            if c.name == "from_raw_os_error" and not args[0].isupper():
+                continue
+            ev.append((("backend:" if backend else "") + nm,) + tuple(args))
+    return sorted(ev)
+
+
+def r4_vfs(ctx, A):
+    VFS = "api::vfs::Vfs"
+    n = 0
+    for nm in ("lookup", "getattr", "setattr", "open", "create", "read", "write", "fsync", "fallocate", "fsyncdir"):
+        s = [x for x in A.find(name=nm, self_adt=VFS) if x.trait == common.FS_TRAIT]
+        a = [x for x in A.find(name="async_" + nm, self_adt=VFS) if x.trait == common.AFS_TRAIT]
+        if len(s) != 1 or len(a) != 1:
+            raise core.Anchor("Vfs::%s / Vfs::async_%s (%d/%d)" % (nm, nm, len(s), len(a)))
+        n += 1
+        ctx.fn_seen(s[0])
+        ctx.fn_seen(a[0])
+        sv = vf.VF(s[0], inline_depth=0)
+        es = vfs_events(A, s[0], s[0], sv, s[0])
+        parent = a[0]
+        pv = vf.VF(parent, inline_depth=0)
+        cl = [x for x in vf.walk(pv.ret()) if x[0] == "CL" and x[1] in A.built]
+        if not cl:
+            raise core.Anchor("coroutine of %s" % parent.key)
+        body = A.built[cl[0][1]]
+        av = vf.VF(body, inline_depth=0, params={1: cl[0]})
+        av.render_body = parent
+        ea = vfs_events(A, parent, body, av, parent)
+        # the pseudo (Left) arm of an async method calls the sync method of the pseudo fs; read/write on the pseudo fs are ENOSYS on the
+        # async path (no AsyncZeroCopy adapter for it) -- reviewed difference, listed explicitly
+        if nm in ("read", "write"):
+            es = [e for e in es if not (e[0] == "backend:" + nm and "@Left" in e[1])]
+            ea = [e for e in ea if not (e[0] == "from_raw_os_error" and e[1] == "ENOSYS")]
+        only_s = [e for e in es if e not in ea]
+        only_a = [e for e in ea if e not in es]
+        ctx.check("R4-vfs-siblings", nm, not only_s and not only_a,
+                  "Vfs::async_%s differs from Vfs::%s in its routing/gating/translation steps: only sync %s; only async %s" % (nm, nm, only_s[:3], only_a[:3]),
+                  loc=a[0].loc(), detail="%d steps" % len(es))
+    ctx.floor("R4-vfs-siblings", 10)
+
+
+def r5_pfs(ctx, A):
+    """PassthroughFs implements every async method by calling its own sync method with the same arguments in the same order."""
+    PFS = "passthrough::PassthroughFs"
+    for nm in ("lookup", "getattr", "setattr", "open", "create", "read", "write", "fsync", "fallocate", "fsyncdir"):
+        a = [x for x in A.find(name="async_" + nm, self_adt=PFS) if x.trait == common.AFS_TRAIT]
+        if len(a) != 1:
+            raise core.Anchor("PassthroughFs::async_%s (%d)" % (nm, len(a)))
+        parent = a[0]
+        ctx.fn_seen(parent)
+        pv = vf.VF(parent, inline_depth=0)
+        cl = [x for x in vf.walk(pv.ret()) if x[0] == "CL" and x[1] in A.built]
+        if not cl:
+            raise core.Anchor("coroutine of %s" % parent.key)
+        body = A.built[cl[0][1]]
+        av = vf.VF(body, inline_depth=0, params={1: cl[0]})
+        av.render_body = parent
+        calls = [c for c in live_calls(body) if c.name == nm and (c.trait == common.FS_TRAIT or (c.res or c.fn or "").endswith("::" + nm))]
+        others = [c for c in live_calls(body) if c.trait in (common.FS_TRAIT, common.AFS_TRAIT) and c not in calls]
+        ok = len(calls) == 1 and not others
+        got = []
+        if ok:
+            got = [re.sub(r"\b__self\b", "self", vf.render(x, parent, short=True, vfx={body.key: av})) for x in av.call_args(calls[0])]
+            want = [parent.local_name(i) for i in range(1, parent.argc + 1)]
+            ok = got == want
+        ctx.check("R5-passthrough-delegation", nm, ok,
+                  "PassthroughFs::async_%s must call self.%s with its own parameters in order; it calls %s(%s)%s" %
+                  (nm, nm, calls[0].name if calls else "nothing", ", ".join(got), (" and also " + str([c.name for c in others])) if others else ""), loc=parent.loc())
+    ctx.floor("R5-passthrough-delegation", 10)
 
 
 # ------------------------------------------------------------------ summaries
@@ -425,7 +526,9 @@ META = {
     "text": "Decides that the async dispatcher handles the same opcodes with the same or the async_-sibling handler and refuses before dispatch on "
             "the same conditions; that each of the ten async handlers calls the same filesystem operation with the same argument provenance, "
             "has the same reply sites with the same field provenance and reaches the filesystem under the same conditions; that the async reply "
-            "helpers build the same header; and that Arc<FS> forwards every async method unchanged.",
+            "helpers build the same header; that Arc<FS> forwards every async method unchanged; that the VFS multiplexer's async methods gate, route "
+            "and translate exactly like their sync siblings (pseudo-fs read/write being ENOSYS on the async path is a reviewed difference); and that "
+            "PassthroughFs's async methods delegate to its sync methods argument for argument.",
     "note": "Requires the async-io configuration to type-check. Not decided: scheduling effects of the executor; byte movement of the async "
             "read/write data path (compared by reply kinds only).",
 }
